@@ -105,7 +105,6 @@ def spans_part(chk, tier, seed):
     for key, s in scripts.items():
         cases.append({"k": "spans", "ops": U.script_ops(s["ops"])})
         metas.append(s)
-    flip = os.environ.get("VERIF_C16_FLIP") == "spans"
     results_h = run_cases(cases, "c16_spans", timeout_ms=10000)
     n_inline = n_interned = enc_mismatch = 0
     for case, s, res in zip(cases, metas, results_h):
@@ -124,8 +123,6 @@ def spans_part(chk, tier, seed):
         for j, (op, ob) in enumerate(zip(ops, res["obs"])):
             if op[0] == "span":
                 expect.append([op[1], op[2], op[3]])
-            if flip and j == len(ops) - 1 and expect:
-                expect[-1] = [expect[-1][0], expect[-1][1], expect[-1][2] + 1]
             if ob["err"] is not None:
                 chk.disagree({"kind": "spans", "class": "rejected", "op": op[0]},
                              f"operation #{j} {op} of a valid script panicked: {ob['err']}",
@@ -211,9 +208,8 @@ def errors_part(chk, tier, seed, stdlib):
     chk.extra["ui_fail_programs_skipped_for_arguments"] = skipped
     cases = [p.case() for p in progs]
     results = run_cases(cases, "c16_errors", timeout_ms=20000)
-    flip = os.environ.get("VERIF_C16_FLIP") == "events"
     failing = []
-    stage_counts, family_counts = {}, {}
+    stage_counts, family_counts, src_kinds = {}, {}, {}
     not_failing = 0
     n_events = 0
     trace_cases = []          # (events, python_ok)
@@ -245,10 +241,16 @@ def errors_part(chk, tier, seed, stdlib):
         for role, (idx, ln, s, e) in sps:
             if idx >= 0 and idx in known and known[idx] != ln:
                 raise vlib.ToolError(f"{p.name}: harness reports length {ln} for source {idx}, expected {known[idx]}")
-            if flip and p.name == "chain/call/3" and role == "error":
-                e = ln + 1
             events.append({"ev": "span", "ctx": idx + 1, "s": s, "e": e})
             n_events += 1
+            sk = "stdlib" if idx == 0 else "main" if idx == 1 else "import"
+            src_kinds[sk] = src_kinds.get(sk, 0) + 1
+            if s == e:
+                src_kinds["empty"] = src_kinds.get("empty", 0) + 1
+            if idx in known and e == known[idx]:
+                src_kinds["ending_at_eof"] = src_kinds.get("ending_at_eof", 0) + 1
+            if s == 0:
+                src_kinds["starting_at_first_byte"] = src_kinds.get("starting_at_first_byte", 0) + 1
             good = idx >= 0 and idx in known and 0 <= s <= e <= known[idx]
             if not good:
                 ok = False
@@ -265,6 +267,10 @@ def errors_part(chk, tier, seed, stdlib):
     chk.extra["failing_by_stage"] = stage_counts
     chk.extra["failing_by_family"] = family_counts
     chk.extra["span_events"] = n_events
+    chk.extra["span_events_by_class"] = src_kinds
+    for k in ("stdlib", "main", "import", "empty", "ending_at_eof", "starting_at_first_byte"):
+        if src_kinds.get(k, 0) == 0:
+            raise vlib.ToolError(f"vacuity: no span event of class {k}")
     for st in ("lex", "parse", "analyze", "eval"):
         if stage_counts.get(st, 0) == 0:
             raise vlib.ToolError(f"vacuity: no failing program of stage {st}")
@@ -414,7 +420,6 @@ def render_part(chk, tier, seed, failing, crop, stdlib, scratch):
     with cf.ThreadPoolExecutor(max_workers=12) as ex:
         outs = list(ex.map(run_cli, jobs))
 
-    flip = os.environ.get("VERIF_C16_FLIP") == "render"
     plain_text = {}
     stats = {"renders": 0, "with_location": 0, "columns_compared": 0, "cropped": 0, "std_trace_programs": 0,
              "coloured_equal_plain": 0, "import_load_error_reports": 0}
@@ -495,8 +500,6 @@ def render_part(chk, tier, seed, failing, crop, stdlib, scratch):
 
         # the primary location
         prim = primary_span(err)
-        if flip and p.name == "chain/call/2" and prim is not None:
-            prim = [prim[0], prim[1], prim[2] + 1, prim[3]]
         if prim is None:
             if blocks[0]["locs"]:
                 chk.disagree(dict(sig0, **{"class": "location"}),
